@@ -418,10 +418,6 @@ def check_edges(ctx, lc, pa, dirs, case):
         unwrapped = {e: exact_unwrapped_edge(pos, edges, crossing, e) for e in sel}
         fl = {e: (np.array([float(a[0]), float(a[1])]), np.array([float(b[0]), float(b[1])])) for e, (a, b) in unwrapped.items()}
         owner = [None] * len(segs)
-        by_key = {}
-        for e in sel:
-            a, b = fl[e]
-            by_key.setdefault((round((a[0] % 1) * 1e6) , round((a[1] % 1) * 1e6), round((b[0] - a[0]) * 1e6), round((b[1] - a[1]) * 1e6)), []).append(e)
         # multiset bookkeeping: an unwrapped segment may belong to several identical edges
         groups = {e: [] for e in sel}
         for k, s in enumerate(segs):
@@ -508,7 +504,7 @@ def check_edges(ctx, lc, pa, dirs, case):
             for gi, (e, taus) in enumerate(g_edges):
                 c = Cursor(o[f"g{gi}"])
                 total = rd_q(c)
-                overlap = c.next() == "1"
+                overlap = float(rd_q(c)) > TOL
                 res.extra["edges_checked"] = res.extra.get("edges_checked", 0) + 1
                 key = "n_images=%d" % len(taus)
                 lc.img_hist[key] = lc.img_hist.get(key, 0) + 1
